@@ -1435,8 +1435,9 @@ static int parse_loop(struct scanner_s *scanner, cif_container_tp *container) {
                             scanner->skip_depth = 2;
                             break;
                         case CIF_TRAVERSE_END:
+                        default:
+                            /* end the parse, or abort it with the error code the handler returned */
                             goto loop_body_end;
-                        /* default: do nothing */
                     }
                 }  /* else loop == NULL from its initialization */
 
@@ -1632,6 +1633,8 @@ static int parse_loop_packets(struct scanner_s *scanner, cif_loop_tp *loop, stri
                                     result = OPTIONAL_CALL(scanner->handler->handle_packet_start,
                                             (NULL, scanner->user_data), CIF_OK);
                                     switch (result) {
+                                        case CIF_TRAVERSE_CONTINUE:
+                                            break;
                                         case CIF_TRAVERSE_SKIP_CURRENT:
                                             scanner->skip_depth = 1;
                                             break;
@@ -1639,8 +1642,9 @@ static int parse_loop_packets(struct scanner_s *scanner, cif_loop_tp *loop, stri
                                             scanner->skip_depth = 2;
                                             break;
                                         case CIF_TRAVERSE_END:
+                                        default:
+                                            /* end the parse, or abort it with the error code the handler returned */
                                             goto packets_end;
-                                        /* default: do nothing */
                                     }
                                 }
                             }
